@@ -26,8 +26,14 @@ def decodeCalls : List String := [
 def doernerReceiverUnmarshalCBOR : List String := [
   "<<MISSING: protocols/doerner/keygen/keygen.go:ConfigReceiver.UnmarshalCBOR>>"
 ]
+def doernerReceiverValidate : List String := [
+  "<<MISSING: protocols/doerner/keygen/keygen.go:ConfigReceiver.Validate>>"
+]
 def doernerSenderUnmarshalCBOR : List String := [
   "<<MISSING: protocols/doerner/keygen/keygen.go:ConfigSender.UnmarshalCBOR>>"
+]
+def doernerSenderValidate : List String := [
+  "<<MISSING: protocols/doerner/keygen/keygen.go:ConfigSender.Validate>>"
 ]
 def exponentUnmarshal : List String := [
   "e == nil || e.group == nil => errors.New(\"can't unmarshal Exponent with no group\")",
@@ -35,8 +41,14 @@ def exponentUnmarshal : List String := [
   "uint64(size) > uint64(len(data)-4)/32 => errors.New(\"exponent: number of coefficients exceeds the size of the data\")",
   "err := cbor.Unmarshal(data[4:], &rawExponent); err != nil => err"
 ]
+def frostConfigValidate : List String := [
+  "<<MISSING: protocols/frost/keygen/config.go:Config.Validate>>"
+]
 def frostUnmarshalCBOR : List String := [
   "<<MISSING: protocols/frost/keygen/config.go:Config.UnmarshalCBOR>>"
+]
+def frostValidateShares : List String := [
+  "<<MISSING: protocols/frost/keygen/config.go:validateShares>>"
 ]
 def messageUnmarshalBinary : List String := [
   "err := cbor.Unmarshal(data, deserialized); err != nil => nil"
@@ -46,8 +58,17 @@ def otSendSetupFields : List String := [
   "_K_Delta [params.OTParam][params.OTBytes]byte",
   "<<MISSING: internal/ot/correlated.go:CorreOTSendSetup.MarshalBinary>>"
 ]
+def pedersenValidateParameters : List String := [
+  "n == nil || s == nil || t == nil => ErrNilFields",
+  "!arith.IsValidNatModN(n, s, t) => ErrNotValidModN",
+  "_, eq, _ := s.Cmp(t); eq == 1 => ErrSEqualT"
+]
 def presigUnmarshalCBOR : List String := [
   "<<MISSING: pkg/ecdsa/presignature.go:PreSignature.UnmarshalCBOR>>"
+]
+def ridValidate : List String := [
+  "l := len(rid); l != params.SecBytes => fmt.Errorf(\"rid: incorrect length (got %d, expected %d)\", l, params.SecBytes)",
+  "b != 0 => nil"
 ]
 def roundUseFirst : List String := [
   "protocols/cmp/presign/abort1.go:abort1.StoreBroadcastMessage|broadcastAbort1.GammaShare|*saferith.Int|USE-FIRST|r.GammaShares[from] = body.GammaShare",
@@ -64,8 +85,22 @@ def roundUseFirst : List String := [
 def signatureUnmarshalCBOR : List String := [
   "<<MISSING: pkg/ecdsa/signature.go:Signature.UnmarshalCBOR>>"
 ]
+def taprootConfigValidate : List String := [
+  "<<MISSING: protocols/frost/keygen/config.go:TaprootConfig.Validate>>"
+]
 def taprootUnmarshalCBOR : List String := [
   "<<MISSING: protocols/frost/keygen/config.go:TaprootConfig.UnmarshalCBOR>>"
+]
+def validateN : List String := [
+  "n == nil => ErrPaillierNil",
+  "bits := nBig.BitLen(); bits != params.BitsPaillier => fmt.Errorf(\"have: %d, need %d: %w\", bits, params.BitsPaillier, ErrPaillierLength)",
+  "nBig.Bit(0) != 1 => ErrPaillierEven"
+]
+def validatePrime : List String := [
+  "p == nil => ErrPrimeNil",
+  "bits := p.TrueLen(); bits != bitsWant => fmt.Errorf(\"invalid prime size: have: %d, need %d: %w\", bits, bitsWant, ErrPrimeBadLength)",
+  "p.Byte(0)&0b11 != 3 => ErrNotBlum",
+  "!pMinus1Div2.Big().ProbablyPrime(1) => ErrNotSafePrime"
 ]
 def zkUnguarded : List String := [
   "zk/affg|Commitment|*Commitment|UNGUARDED",
@@ -155,8 +190,20 @@ def decodeCalls : List String := [
 def doernerReceiverUnmarshalCBOR : List String := [
   "err := safecbor.Unmarshal(data, (*plain)(c)); err != nil => err"
 ]
+def doernerReceiverValidate : List String := [
+  "c == nil => errors.New(\"config: config is nil\")",
+  "c.Setup == nil => errors.New(\"config: OT setup is missing\")",
+  "c.SecretShare == nil || c.SecretShare.IsZero() || c.Public == nil || c.Public.IsIdentity() => errors.New(\"config: secret share or public key is missing\")",
+  "l := len(c.ChainKey); l != 0 && l != params.SecBytes => fmt.Errorf(\"config: chain key has %d bytes, expected %d\", l, params.SecBytes)"
+]
 def doernerSenderUnmarshalCBOR : List String := [
   "err := safecbor.Unmarshal(data, (*plain)(c)); err != nil => err"
+]
+def doernerSenderValidate : List String := [
+  "c == nil => errors.New(\"config: config is nil\")",
+  "c.Setup == nil => errors.New(\"config: OT setup is missing\")",
+  "c.SecretShare == nil || c.SecretShare.IsZero() || c.Public == nil || c.Public.IsIdentity() => errors.New(\"config: secret share or public key is missing\")",
+  "l := len(c.ChainKey); l != 0 && l != params.SecBytes => fmt.Errorf(\"config: chain key has %d bytes, expected %d\", l, params.SecBytes)"
 ]
 def exponentUnmarshal : List String := [
   "e == nil || e.group == nil => errors.New(\"can't unmarshal Exponent with no group\")",
@@ -167,8 +214,23 @@ def exponentUnmarshal : List String := [
   "c == nil => errors.New(\"exponent: missing coefficient\")",
   "!rawExponent.IsConstant && size == 0 => errors.New(\"exponent: no coefficients\")"
 ]
+def frostConfigValidate : List String := [
+  "r == nil => errors.New(\"config: config is nil\")",
+  "r.ID == \"\" => errors.New(\"config: ID is empty\")",
+  "r.PrivateShare == nil || r.PrivateShare.IsZero() || r.PublicKey == nil => errors.New(\"config: private share or public key is missing\")",
+  "r.VerificationShares == nil => errors.New(\"config: verification shares are missing\")",
+  "r.PublicKey.IsIdentity() => errors.New(\"config: public key is the identity\")",
+  "l := len(r.ChainKey); l != 0 && l != params.SecBytes => fmt.Errorf(\"config: chain key has %d bytes, expected %d\", l, params.SecBytes)",
+  "err := validateShares(r.ID, r.Threshold, present); err != nil => err",
+  "!r.VerificationShares.Points[r.ID].Equal(r.PrivateShare.ActOnBase()) => errors.New(\"config: private share does not match this party's verification share\")"
+]
 def frostUnmarshalCBOR : List String := [
   "err := safecbor.Unmarshal(data, (*plain)(r)); err != nil => err"
+]
+def frostValidateShares : List String := [
+  "n := len(present); threshold < 0 || threshold > math.MaxUint32 || threshold > n-1 => fmt.Errorf(\"config: threshold %d is invalid for %d parties\", threshold, n)",
+  "!ok => fmt.Errorf(\"config: party %s: verification share is missing\", id)",
+  "!present[self] => errors.New(\"config: no verification share for this party\")"
 ]
 def messageUnmarshalBinary : List String := [
   "err := cbor.Unmarshal(data, &deserialized); err != nil => fmt.Errorf(\"message: %w\", err)",
@@ -180,8 +242,17 @@ def otSendSetupFields : List String := [
   "nil, errors.New(\"CorreOTSendSetup: nil\")",
   "out, nil"
 ]
+def pedersenValidateParameters : List String := [
+  "n == nil || s == nil || t == nil => ErrNilFields",
+  "!arith.IsValidNatModN(n, s, t) => ErrNotValidModN",
+  "_, eq, _ := s.Cmp(t); eq == 1 => ErrSEqualT"
+]
 def presigUnmarshalCBOR : List String := [
   "err := safecbor.Unmarshal(data, (*plain)(sig)); err != nil => err"
+]
+def ridValidate : List String := [
+  "l := len(rid); l != params.SecBytes => fmt.Errorf(\"rid: incorrect length (got %d, expected %d)\", l, params.SecBytes)",
+  "b != 0 => nil"
 ]
 def roundUseFirst : List String := [
 ]
@@ -189,8 +260,29 @@ def signatureUnmarshalCBOR : List String := [
   "err := safecbor.Unmarshal(data, (*plain)(sig)); err != nil => err",
   "sig.R == nil || sig.R.IsIdentity() || sig.S == nil || sig.S.IsZero() => errors.New(\"signature: R is the identity or S is zero\")"
 ]
+def taprootConfigValidate : List String := [
+  "r == nil => errors.New(\"config: config is nil\")",
+  "r.ID == \"\" => errors.New(\"config: ID is empty\")",
+  "r.PrivateShare == nil || r.PrivateShare.IsZero() => errors.New(\"config: private share is missing\")",
+  "r.VerificationShares == nil => errors.New(\"config: verification shares are missing\")",
+  "_, err := (curve.Secp256k1{}).LiftX(r.PublicKey); err != nil => fmt.Errorf(\"config: public key: %w\", err)",
+  "l := len(r.ChainKey); l != 0 && l != params.SecBytes => fmt.Errorf(\"config: chain key has %d bytes, expected %d\", l, params.SecBytes)",
+  "err := validateShares(r.ID, r.Threshold, present); err != nil => err",
+  "!r.VerificationShares[r.ID].Equal(r.PrivateShare.ActOnBase()) => errors.New(\"config: private share does not match this party's verification share\")"
+]
 def taprootUnmarshalCBOR : List String := [
   "err := safecbor.Unmarshal(data, (*plain)(r)); err != nil => err"
+]
+def validateN : List String := [
+  "n == nil => ErrPaillierNil",
+  "bits := nBig.BitLen(); bits != params.BitsPaillier => fmt.Errorf(\"have: %d, need %d: %w\", bits, params.BitsPaillier, ErrPaillierLength)",
+  "nBig.Bit(0) != 1 => ErrPaillierEven"
+]
+def validatePrime : List String := [
+  "p == nil => ErrPrimeNil",
+  "bits := p.TrueLen(); bits != bitsWant => fmt.Errorf(\"invalid prime size: have: %d, need %d: %w\", bits, bitsWant, ErrPrimeBadLength)",
+  "p.Byte(0)&0b11 != 3 => ErrNotBlum",
+  "!p.Big().ProbablyPrime(1) || !pMinus1Div2.Big().ProbablyPrime(1) => ErrNotSafePrime"
 ]
 def zkUnguarded : List String := [
 ]
